@@ -103,37 +103,10 @@ def hierarchy_roots(canon, lib='work'):
     return sorted(n for n, d in canon['defs'].items() if d['lib'] == lib and n not in inst)
 
 
-def election_candidates(modules):
-    """The tops the reader's re-election procedure CAN arrive at (the open finding 'top election' is exactly
-    this procedure: it reacts only when the instantiated module is the current top and then walks ONE level up
-    from an arbitrary element of the reference set). modules: [(name, is_cell, [instantiated module names])]
-    in file order. Used only to give the known finding a precise signature."""
-    states = {None}
-    parents = {}
-    for name, is_cell, insts in modules:
-        if is_cell:
-            continue
-        states = set(name if t is None else t for t in states)
-        for ref in insts:
-            nxt = set()
-            for t in states:
-                if ref == t:
-                    cands = set(parents.get(name) or [name])
-                    nxt |= cands
-                else:
-                    nxt.add(t)
-            states = nxt
-            parents.setdefault(ref, []).append(name)
-    return states
-
-
 def top_item(prop_prefix, root, got_top, modules):
-    cands = election_candidates(modules)
-    if got_top in cands and got_top != root:
-        sig = 'C06|top|re-election-walks-one-level-only'
-    else:
-        sig = 'C06|top|unclassified'
-    return item('top', sig, 'root module %r, elected top %r (the one-level re-election can give %r)' % (root, got_top, sorted(map(str, cands))))
+    """the module that no other module instantiates is the top, in every file order (the reader decides at the end of
+    the file: elect_top)"""
+    return item('top', 'C06|top|root-module-not-elected', 'root module %r, elected top %r' % (root, got_top))
 
 
 def reversed_assigns(assigns):
@@ -205,21 +178,8 @@ def c06_compare(design, exp, got):
             sig = 'C06|%s|unclassified' % f
             if f == 'assigns' and assigns_match_up_to_pin_reversal(e[f], g[f]):
                 sig = 'C06|assigns|multi-bit-assign-pins-msb-first'
-            elif f == 'ports' and mod is not None and len(e[f]) == len(g[f]) and all(
-                    a == b or (a[0] == b[0] and a[2:] == b[2:] and b[1] == 'undefined' and
-                               next(p for p in mod['ports'] if p['name'] == a[0]).get('inherit_dir'))
-                    for a, b in zip(e[f], g[f])):
-                sig = 'C06|ports|ansi-port-without-own-direction-keyword-is-undefined'
             elif f == 'port_attrs' and not g[f]:
                 sig = 'C06|port_attrs|attributes-of-port-declaration-dropped'
-            elif f == 'cables' and mod is not None:
-                shared = set()
-                for it in mod['body']:
-                    if it['k'] == 'wire' and it['msb'] is not None and len(it['names']) > 1:
-                        shared.update(it['names'][1:])
-                diffn = [c for c in set(e[f]) | set(g[f]) if e[f].get(c) != g[f].get(c)]
-                if diffn and all(c in shared and g[f].get(c) == [1, 0, e[f][c][2]] for c in diffn):
-                    sig = 'C06|cables|range-of-declaration-applied-to-first-name-only'
             items.append(item(f, sig, '; '.join(W.diff_canon({'defs': {n: {f: e.get(f)}}}, {'defs': {n: {f: g.get(f)}}}, 3))))
     return items
 
@@ -344,11 +304,7 @@ def primitive_reg_lost(b, a):
 def c04_compare(before, after, opts):
     items = []
     if before.get('top') != after.get('top'):
-        roots = hierarchy_roots(before)
-        if len(roots) == 1 and after.get('top') == roots[0]:
-            sig = 'C04|top|root-module-elected-only-after-rewrite'
-        else:
-            sig = 'C04|top|unclassified'
+        sig = 'C04|top|unclassified'
         items.append(item('top', sig, 'top before %r, after %r' % (before.get('top'), after.get('top'))))
     wb = opts.get('write_blackbox', True)
     dl = opts.get('definition_list') or None
